@@ -7,6 +7,7 @@
 package main
 
 import (
+	"runtime/pprof"
 	"encoding/json"
 	"fmt"
 	"os"
@@ -27,6 +28,11 @@ func main() {
 		if err := json.Unmarshal([]byte(os.Args[2]), &c); err != nil {
 			fmt.Fprintln(os.Stderr, err)
 			os.Exit(2)
+		}
+		if pf := os.Getenv("CQMC_CPUPROFILE"); pf != "" {
+			f, _ := os.Create(pf)
+			pprof.StartCPUProfile(f)
+			defer pprof.StopCPUProfile()
 		}
 		res := runCfg(c)
 		b, _ := json.Marshal(res)
